@@ -73,6 +73,24 @@ class Cx:
                 if f is not None:
                     self.renamed[suffix] = fn_name(f)
         if f is None:
+            # a private method turned into a free function of the same module (or the reverse) keeps its name
+            last = suffix.rsplit("::", 1)[-1]
+            mod = None
+            try:
+                import json, os
+                ref = json.load(open(os.path.join(os.path.dirname(os.path.abspath(__file__)), "fn_table.json")))["fns"]
+                ks = [k for k in ref if k.endswith("::" + suffix) or k == suffix]
+                if len(ks) == 1:
+                    parts = ks[0].split("::")
+                    mod = "::".join(parts[:2]) if len(parts) > 2 else parts[0]
+            except Exception:
+                ref = None
+            if mod:
+                cands = [x for k, x in self.facts.fns.items() if not x.is_closure and x.crate == "raft" and x.name == last and x.vis != "Public" and k.startswith(mod + "::")]
+                if len(cands) == 1:
+                    f = cands[0]
+                    self.renamed[suffix] = fn_name(f)
+        if f is None:
             raise AnchorMissing("function %s" % suffix)
         self._roles[suffix] = f
         return f
